@@ -365,6 +365,7 @@ func (e *Eng) verifyFunc(fn *ssa.Function, sp *FuncSpec, known *knownFindings) *
 				bindResults(b2, sig, Tuple(ri.results))
 			}
 			rcs = append(rcs, retCtx{&evalCtx{fr: fr, run: r, st: ri.st, old: r.entry, binds: b2, pkg: cx.pkg, useVars: true, varsAfter: true}, ri.st})
+
 		}
 		for i, c := range sp.Ensures {
 			parent := &Obligation{Name: r.oblName(sp.Name + ":ensures:" + labelOr(c, i)), Kind: "ensures", Func: sp.Name, Text: c.Text, run: r, clause: c}
